@@ -29,7 +29,7 @@ def run(ctx):
                                            nqueries=1, ticks=(st == 'timesorted'))
       # bounded and unbounded cache (a full cache must still take updates of cached timestamps)
       cfg = dict(strategy=st, max=(None if w % 2 == 0 else 2), flow=False, lag=0)
-      expl.append((cfg, r_ops, w_ops, ctx.pick(1, 2), ctx.pick(40, 300), ctx.pick(150, 3000)))
+      expl.append((cfg, r_ops, w_ops, ctx.pick(1, 2), ctx.pick(40, 200), ctx.pick(150, 1500)))
   cachecheck.run_plan(ctx, 'C02', models, sims, expl)
 
 
